@@ -268,7 +268,26 @@ func c01Run(c *Ctx, cs c01Case) {
 			r.Violate("send-error"+sigTail, fmt.Sprintf("message %d (%d bytes at packet size %d): send returned %v", mi, len(want), ps, sendErr), cs)
 			return
 		}
-		ws := k.tr.TakeWrites()
+		// The property speaks about the bytes reaching the transport, not
+		// about how they are distributed over Write calls: the writes of the
+		// message are concatenated and cut into packets by their headers.
+		raw := k.tr.TakeWrites()
+		var stream []byte
+		for _, w := range raw {
+			stream = append(stream, w.Data...)
+		}
+		var ws []xport.WriteRec
+		for off := 0; off < len(stream); {
+			h, herr := xport.ParseHeader(stream[off:])
+			if herr != nil || h.Length < 8 || off+int(h.Length) > len(stream) {
+				// keep the rest as one record; the per-packet checks below report it
+				ws = append(ws, xport.WriteRec{Data: stream[off:]})
+				break
+			}
+			ws = append(ws, xport.WriteRec{Data: stream[off : off+int(h.Length)]})
+			off += int(h.Length)
+		}
+		r.Count("transport_writes", int64(len(raw)))
 		r.Count("messages_checked", 1)
 		r.Count("packets_observed", int64(len(ws)))
 		r.SetAdd("tuples", fmt.Sprintf("ps%d/k%d/d%d/%s/t%d/ch%d", ps, m.K, m.D, m.Split, m.Type, chanID))
